@@ -55,7 +55,7 @@ FORMS = {"own": ("{}", "{}"), "ref": ("&{}", "&{}"), "mut": ("&mut {}", "&mut {}
 def fam_lengths(rng, rounds):
     P = []
     for _ in range(rounds):
-        n = rng.choice([1, 2, 3, 4, 5, 6, 7, 8, 9, 10, 11, 12, 16, 100, 1024])
+        n = rng.choice([1, 2, 3, 4, 5, 6, 7, 8, 9, 10, 11, 12, 16, 100, 1000, 1010])
         el = rng.choice(ELEMS)
         # zip, all ten forms
         for lf in ("own", "ref", "mut"):
